@@ -15,6 +15,11 @@ Lemma min_len_is : c_min_iri_min_len = 3.
 Proof. reflexivity. Qed.
 Lemma rule_is_bare : c_min_iri_rule_bare = true.
 Proof. reflexivity. Qed.
+(** the blank-node marker of the first test, when the source carries that test
+    (either value of the generated flag) *)
+Lemma bnode_prefix_is : c_min_iri_skips_bnode_prefix = true -> c_min_iri_bnode_prefix = Str "_:".
+Proof. intros E. first [ vm_compute in E; discriminate E | reflexivity ]. Qed.
+
 Lemma bare_scheme_consts :
   c_BARE_SCHEME_EXCL = Str ":/#" /\ c_BARE_SCHEME_COLON = Str ":" /\ c_BARE_SCHEME_MAX_SLASHES = 2%nat.
 Proof. repeat split; reflexivity. Qed.
@@ -341,10 +346,10 @@ Proof.
 Qed.
 
 (** ** [determine] *)
-Lemma determine_some l s : determine l = Some s ->
+Lemma determine_cut_some l s : determine_cut l = Some s ->
   last_sep_prefix l s /\ 3 <= pylen s /\ ~ bare_scheme s.
 Proof.
-  unfold determine. rewrite min_len_is.
+  unfold determine_cut. rewrite min_len_is.
   destruct (search_sep (rev l)) as [k|] eqn:Hs; [|discriminate].
   destruct (pylen _ <? 3) eqn:H3; [discriminate|].
   unfold scheme_test. rewrite rule_is_bare.
@@ -353,10 +358,10 @@ Proof.
   intros B. apply bare_scheme_match_spec in B. congruence.
 Qed.
 
-Lemma determine_none l : determine l = None ->
+Lemma determine_cut_none l : determine_cut l = None ->
   forall p, prefix p l -> ends_with_sep p -> 3 <= pylen p -> bare_scheme p.
 Proof.
-  unfold determine. rewrite min_len_is.
+  unfold determine_cut. rewrite min_len_is.
   destruct (search_sep (rev l)) as [k|] eqn:Hs.
   - pose proof (cand_spec _ _ Hs) as (Pc & Ec & Mx). set (cand := rev (skipn k (rev l))) in *.
     destruct (pylen cand <? 3) eqn:H3.
@@ -368,20 +373,137 @@ Proof.
   - intros _ p P E _. exfalso. eapply no_cand; eassumption.
 Qed.
 
-(** ** the stem: all well-formed instance id lists, the property's own wording *)
-Theorem stem_some iris s : well_formed_ids iris -> stem iris = Some s -> is_longest s iris.
+(** the first test ([bnode_prefix_test]): present or not, what [determine]
+    answers in terms of the cut *)
+Lemma bnode_prefix_test_true l :
+  bnode_prefix_test l = true <-> c_min_iri_skips_bnode_prefix = true /\ bnode_id l.
+Proof.
+  unfold bnode_prefix_test, bnode_id. rewrite andb_true_iff. split.
+  - intros [F P]. split; [exact F|]. rewrite (bnode_prefix_is F) in P. now apply prefixb_prefix.
+  - intros [F P]. split; [exact F|]. rewrite (bnode_prefix_is F). now apply prefixb_prefix.
+Qed.
+
+Lemma determine_some l s : determine l = Some s ->
+  determine_cut l = Some s /\ (c_min_iri_skips_bnode_prefix = true -> ~ bnode_id l).
+Proof.
+  unfold determine. destruct (bnode_prefix_test l) eqn:T; [discriminate|].
+  intros H. split; [exact H|]. intros F B.
+  assert (T' : bnode_prefix_test l = true) by (apply bnode_prefix_test_true; split; assumption). congruence.
+Qed.
+
+Lemma determine_none l : determine l = None ->
+  determine_cut l = None \/ (c_min_iri_skips_bnode_prefix = true /\ bnode_id l).
+Proof.
+  unfold determine. destruct (bnode_prefix_test l) eqn:T.
+  - intros _. right. now apply bnode_prefix_test_true.
+  - intros H. now left.
+Qed.
+
+(** with the first test absent, [determine] is the cut *)
+Lemma determine_no_guard l : c_min_iri_skips_bnode_prefix = false -> determine l = determine_cut l.
+Proof. intros F. unfold determine, bnode_prefix_test. rewrite F. reflexivity. Qed.
+
+(** what the function guarantees, with the first test: nothing is answered for
+    a common prefix that starts with the blank-node marker; any other answer is
+    the cut *)
+Lemma determine_guarded l : c_min_iri_skips_bnode_prefix = true ->
+  (bnode_id l -> determine l = None) /\ (~ bnode_id l -> determine l = determine_cut l).
+Proof.
+  intros F. unfold determine. split.
+  - intros B. assert (T : bnode_prefix_test l = true) by (apply bnode_prefix_test_true; split; assumption).
+    now rewrite T.
+  - intros NB. destruct (bnode_prefix_test l) eqn:T; [|reflexivity].
+    apply bnode_prefix_test_true in T. destruct T as [_ B]. contradiction.
+Qed.
+
+(** ** blank-node identifiers and stems *)
+Lemma pylen_le_length s : pylen s <= Z.of_nat (List.length s).
+Proof.
+  unfold pylen. induction s as [|c s IH]; cbn [filter List.length]; [lia|].
+  destruct (negb (is_cont c)); cbn [List.length]; lia.
+Qed.
+
+(** a common prefix of three characters of a list that holds a blank-node
+    identifier starts with the marker itself *)
+Lemma common_prefix_bnode s iris i :
+  common_prefix s iris -> 3 <= pylen s -> In i iris -> bnode_id i -> bnode_id s.
+Proof.
+  intros C L Hi B. unfold bnode_id in *. pose proof (pylen_le_length s) as Ls.
+  eapply prefix_comparable; [exact B | apply C, Hi |]. cbn. lia.
+Qed.
+
+Lemma bnode_common_prefix s iris i : bnode_id s -> common_prefix s iris -> In i iris -> bnode_id i.
+Proof. intros B C Hi. unfold bnode_id in *. eapply prefix_trans; [exact B | apply C, Hi]. Qed.
+
+Lemma bnode_idb_spec i : bnode_idb i = true <-> bnode_id i.
+Proof. unfold bnode_idb, bnode_id. apply prefixb_prefix. Qed.
+
+(** ** the stem, in the shape of a stem: every well-formed list, either text of
+    the function.  What is printed has the shape of a stem and no
+    separator-terminated common prefix is longer; nothing printed: no common
+    prefix has the shape of a stem -- or (only with the first test) every
+    instance is a blank node. *)
+Theorem stem_some_shaped iris s :
+  well_formed_ids iris -> stem iris = Some s ->
+  stem_shaped s iris /\ forall s', stem_shaped s' iris -> (List.length s' <= List.length s)%nat.
 Proof.
   intros W H. unfold stem in H. pose proof (fold_min_iri_gcp iris W) as [C G].
-  apply determine_some in H. destruct H as ((P & E & Mx) & L & NH).
+  apply determine_some in H. destruct H as [H _].
+  apply determine_cut_some in H. destruct H as ((P & E & Mx) & L & NH).
   split.
   - repeat split; try assumption. intros i Hi. eapply prefix_trans; [exact P | apply C, Hi].
   - intros s' (C' & E' & _ & _). apply prefix_length, Mx; [apply G, C' | exact E'].
 Qed.
 
-Theorem stem_none iris : well_formed_ids iris -> stem iris = None -> forall s, ~ admissible s iris.
+Theorem stem_none_shaped iris :
+  well_formed_ids iris -> stem iris = None ->
+  forall s, stem_shaped s iris ->
+    c_min_iri_skips_bnode_prefix = true /\ forall i, In i iris -> bnode_id i.
 Proof.
   intros W H s (C' & E' & L' & NB). unfold stem in H. pose proof (fold_min_iri_gcp iris W) as [C G].
-  apply NB. eapply determine_none; [exact H | apply G, C' | exact E' | exact L'].
+  apply determine_none in H. destruct H as [H | [F B]].
+  - exfalso. apply NB. eapply determine_cut_none; [exact H | apply G, C' | exact E' | exact L'].
+  - split; [exact F|]. intros i Hi. eapply bnode_common_prefix; [exact B | exact C | exact Hi].
+Qed.
+
+(** a printed stem never starts with the blank-node marker when the first test
+    is there *)
+Lemma stem_some_not_bnode iris s :
+  c_min_iri_skips_bnode_prefix = true -> well_formed_ids iris -> stem iris = Some s -> ~ bnode_id s.
+Proof.
+  intros F W H B. unfold stem in H. pose proof (fold_min_iri_gcp iris W) as [C G].
+  apply determine_some in H. destruct H as [H NBl]. apply determine_cut_some in H. destruct H as ((P & _) & _).
+  apply (NBl F). unfold bnode_id in *. eapply prefix_trans; eassumption.
+Qed.
+
+(** ** the stem: the property's own wording, on [C17_dom] *)
+Theorem stem_some iris s : C17_dom iris -> stem iris = Some s -> is_longest s iris.
+Proof.
+  intros [W D] H. destruct (stem_some_shaped iris s W H) as [Sh Mx].
+  assert (NB : forall i, In i iris -> ~ bnode_id i).
+  { intros i Hi B. destruct Sh as (C & _ & L & _).
+    pose proof (common_prefix_bnode s iris i C L Hi B) as Bs.
+    destruct (Bool.bool_dec c_min_iri_skips_bnode_prefix true) as [F | F].
+    - exact (stem_some_not_bnode iris s F W H Bs).
+    - apply Bool.not_true_is_false in F.
+      destruct (D F) as (j & Hj & NBj). apply NBj. eapply bnode_common_prefix; eassumption. }
+  split; [split; assumption|].
+  intros s' [Sh' _]. apply Mx, Sh'.
+Qed.
+
+Theorem stem_none iris : C17_dom iris -> stem iris = None -> forall s, ~ admissible s iris.
+Proof.
+  intros [W D] H s [Sh NB]. destruct (stem_none_shaped iris W H s Sh) as [_ B].
+  destruct W as [NE _]. destruct iris as [|i l]; [contradiction|].
+  apply (NB i); [now left | apply B; now left].
+Qed.
+
+(** on the domain, a class with a blank-node instance gets no stem *)
+Theorem stem_bnode_none iris :
+  C17_dom iris -> (exists i, In i iris /\ bnode_id i) -> stem iris = None.
+Proof.
+  intros D (i & Hi & B). destruct (stem iris) as [s|] eqn:H; [|reflexivity].
+  destruct (stem_some iris s D H) as [[_ NB] _]. exfalso. exact (NB i Hi B).
 Qed.
 
 (** a printed stem is moreover the longest separator-terminated common prefix
@@ -392,7 +514,8 @@ Theorem stem_some_prefix_sep iris s :
   forall s', common_prefix s' iris -> ends_with_sep s' -> (List.length s' <= List.length s)%nat.
 Proof.
   intros W H. unfold stem in H. pose proof (fold_min_iri_gcp iris W) as [C G].
-  apply determine_some in H. destruct H as ((P & E & Mx) & L & NH).
+  apply determine_some in H. destruct H as [H _].
+  apply determine_cut_some in H. destruct H as ((P & E & Mx) & L & NH).
   repeat split; try assumption.
   - intros i Hi. eapply prefix_trans; [exact P | apply C, Hi].
   - intros s' C' E'. apply prefix_length, Mx; [apply G, C' | exact E'].
@@ -402,9 +525,34 @@ Theorem stem_perm l l' : Permutation l l' -> well_formed_ids l -> stem l = stem 
 Proof. intros P W. unfold stem. now rewrite (fold_min_iri_perm l l' P W). Qed.
 
 (** ** the boolean domain predicate is sound *)
-Theorem C17_domb_sound iris : C17_domb iris = true -> C17_dom iris.
+Lemma well_formed_idsb_sound iris : well_formed_idsb iris = true -> well_formed_ids iris.
 Proof.
-  unfold C17_domb. destruct iris as [|i0 l]; [discriminate|].
+  unfold well_formed_idsb. destruct iris as [|i0 l]; [discriminate|].
   rewrite forallb_forall. intros NS. split; [discriminate|].
   intros i Hi P. specialize (NS i Hi). apply prefixb_prefix in P. rewrite P in NS. discriminate.
+Qed.
+
+Theorem C17_domb_at_sound guard iris : C17_domb_at guard iris = true -> C17_dom_at guard iris.
+Proof.
+  unfold C17_domb_at, C17_dom_at. rewrite andb_true_iff. intros [W D].
+  split; [now apply well_formed_idsb_sound|]. intros ->. cbn [orb] in D.
+  apply existsb_exists in D. destruct D as (i & Hi & N). exists i. split; [exact Hi|].
+  intros B. apply bnode_idb_spec in B. rewrite B in N. discriminate.
+Qed.
+
+Theorem C17_domb_sound iris : C17_domb iris = true -> C17_dom iris.
+Proof. apply C17_domb_at_sound. Qed.
+
+(** the domain, for either text: with the first test every well-formed list *)
+Lemma C17_dom_guarded iris :
+  c_min_iri_skips_bnode_prefix = true -> (C17_dom iris <-> well_formed_ids iris).
+Proof.
+  intros F. unfold C17_dom, C17_dom_at. rewrite F. split; [intros [W _]; exact W | intros W; split; [exact W | discriminate]].
+Qed.
+
+Lemma C17_dom_unguarded iris :
+  c_min_iri_skips_bnode_prefix = false ->
+  (C17_dom iris <-> well_formed_ids iris /\ exists i, In i iris /\ ~ bnode_id i).
+Proof.
+  intros F. unfold C17_dom, C17_dom_at. rewrite F. split; intros [W D]; (split; [exact W | auto]).
 Qed.
